@@ -525,7 +525,22 @@ func init() {
 		err    error
 		h      *hist
 	}
+	type cached struct {
+		b    []byte
+		want map[string]string
+	}
+	cache := map[string]cached{} // the backup is built once per worker process (executions only read it)
+	var mkBackup0 func(x *schedExec, n int, vprefix string) ([]byte, map[string]string)
 	mkBackup := func(x *schedExec, n int, vprefix string) ([]byte, map[string]string) {
+		k := fmt.Sprint(n, vprefix)
+		if c, ok := cache[k]; ok {
+			return c.b, c.want
+		}
+		b, w := mkBackup0(x, n, vprefix)
+		cache[k] = cached{b, w}
+		return b, w
+	}
+	mkBackup0 = func(x *schedExec, n int, vprefix string) ([]byte, map[string]string) {
 		src, err := Open(c24Opts(x.dir+"/src", 1))
 		if err != nil {
 			panic(err)
